@@ -177,6 +177,22 @@ def run(ctx):
             ctx.nontriv(("edit", st["url"], st["edit"]))
         if n in (30, 3000):
             ctx.sample({"case": case, "result": str(r)})
+    # a host name as the URL itself reports it (IPv6 without brackets) can be given back to replace()
+    for text in ("http://[::1]:8080/p?q=1#f", "https://u:pw@[2001:db8::2]/x", "http://example.com:8080/p", "ws://127.0.0.1/", "http://u@h:1/"):
+        u = URL(text)
+        for h in ("::1", "2001:db8::2", u.hostname, "example.org", "10.0.0.1"):
+            ctx.count()
+            case = {"url": text, "replace": {"hostname": h}}
+            try:
+                r = u.replace(hostname=h)
+                got = {"hostname": r.hostname, "port": r.port, "username": r.username, "password": r.password, "path": r.path, "query": r.query, "scheme": r.scheme}
+            except BaseException as e:  # noqa
+                ctx.violation(case, "a URL", type(e).__name__ + ": " + str(e), "replace(hostname=...) raised %s" % type(e).__name__)
+                continue
+            want = {"hostname": h.lower(), "port": u.port, "username": u.username, "password": u.password, "path": u.path, "query": u.query, "scheme": u.scheme}
+            if got != want:
+                ctx.violation(case, want, got, "replace(hostname=...): the host does not have the new value / other components changed")
+            ctx.nontriv(("hostname", text, h))
     # query-parameter helpers act as set / replace / remove on the multi-value query
     qs = ["a=1&a=2&b=3", "b=%C3%A9", "", "a=1&a=2&a=3&b=4", "a=1&b=2&a=3&c=4&a=5", "a=0&a=1&a=2", "b=1&a=2&a=3&a=4&a=5&c=6", "a=&a=&a=&z=1"]
     for text in ["http://h/p?" + q for q in qs] + ["https://u:pw@[::1]:8443/x?b=%C3%A9&a=1&a=2&a=3", "ws://h/"]:
